@@ -867,8 +867,13 @@ theorem agree_prim {f : Nat} {p : Prim} {S v b b'} (ha : agreePrim p S = true)
     rename_i i
     simp only [decide_eq_true_eq] at hd
     simp only [Prim.enc] at he
+    have hfit : i.toNat + 1 ≤ 1023 := by
+      unfold Builder.writeUnary at he
+      split at he
+      · rename_i hle; simp only [cellBits] at hle; omega
+      · cases he
     refine SpecOK.leaf ?_ (unary_spec b b' _ he)
-    simp [specChunk, hd]
+    simp [specChunk, hd, hfit]
   · -- Any
     cases v <;> simp only [Prim.inDom, Bool.false_eq_true] at hd
     rename_i c
